@@ -538,6 +538,87 @@ theorem layoutSections_keeps : ∀ {mems : List Memory} {dst dst' : Obj},
     have k2 := layoutSections_keeps h2 k1.idinv
     exact ⟨k1.keeps.trans k2.keeps, k1.ext.trans k2.ext, k2.idinv⟩
 
+/-! ### the images list the placed names (any layout) -/
+
+theorem layoutInput_placed {st st' : LState} {i : MemInput} (h : layoutInput st i = .ok st') :
+    st'.placed = st.placed ++ inputPlaced i := by
+  cases i with
+  | sect n =>
+    simp only [layoutInput] at h
+    split at h
+    · cases h
+    · simp only [Except.ok.injEq] at h; subst h; rfl
+  | sectData n =>
+    simp only [layoutInput] at h
+    split at h
+    · cases h
+    · split at h
+      · cases h
+      · simp only [Except.ok.injEq] at h; subst h; rfl
+  | symDef sname =>
+    simp only [layoutInput] at h
+    split at h
+    · cases h
+    · split at h
+      · cases h
+      · simp only [Except.ok.injEq] at h; subst h; rfl
+  | align a =>
+    simp only [layoutInput] at h
+    split at h
+    · cases h
+    · simp only [Except.ok.injEq] at h; subst h; simp [inputPlaced]
+
+theorem layoutInputs_placed : ∀ {inputs : List MemInput} {st st' : LState},
+    layoutInputs st inputs = .ok st' → st'.placed = st.placed ++ inputs.flatMap inputPlaced
+  | [], st, st', h => by simp [layoutInputs] at h; subst h; simp
+  | i :: rest, st, st', h => by
+    obtain ⟨st1, h1, h2⟩ := layoutInputs_cons_inv h
+    rw [layoutInputs_placed h2, layoutInput_placed h1]; simp
+
+theorem layoutMemory_imgnames {dst dst' : Obj} {m : Memory} (h : layoutMemory dst m = .ok dst') :
+    dst'.images.flatMap (·.sections) = dst.images.flatMap (·.sections) ++ m.inputs.flatMap inputPlaced := by
+  unfold layoutMemory at h
+  cases h1 : layoutInputs { secs := dst.sections, syms := dst.symbols, cur := m.location, placed := [] } m.inputs with
+  | error e => simp [h1] at h
+  | ok st =>
+    simp only [h1] at h
+    split at h
+    · cases h
+    · split at h
+      · cases h
+      · simp only [Except.ok.injEq] at h
+        subst h
+        have := layoutInputs_placed h1
+        simp at this
+        simp [this]
+
+theorem layoutSections_imgnames : ∀ {mems : List Memory} {dst dst' : Obj}, layoutSections dst mems = .ok dst' →
+    dst'.images.flatMap (·.sections) = dst.images.flatMap (·.sections) ++ placedNames mems
+  | [], dst, dst', h => by simp [layoutSections] at h; subst h; simp [placedNames]
+  | m :: rest, dst, dst', h => by
+    obtain ⟨dst1, h1, h2⟩ := layoutSections_cons_inv h
+    rw [layoutSections_imgnames h2, layoutMemory_imgnames h1, placedNames_cons, List.append_assoc]
+
+theorem mergeObjects_images : ∀ {objs : List Obj} {dst dst' : Obj} {tr : List ObjTrace},
+    mergeObjects dst objs = .ok (dst', tr) → dst'.images = dst.images
+  | [], dst, dst', tr, h => by rw [(mergeObjects_nil_inv h).1]
+  | o :: rest, dst, dst', tr, h => by
+    obtain ⟨dst1, t, ts, h1, h2, _⟩ := mergeObjects_cons_inv h
+    rw [mergeObjects_images h2, (injectObject_inv h1).2.2.2.2]
+
+theorem layoutChecked_inv {dst dst' : Obj} {mems : List Memory} (h : layoutChecked dst mems = .ok dst') :
+    layoutSections dst mems = .ok dst' ∧ (dst'.images.flatMap (·.sections)).Nodup := by
+  unfold layoutChecked at h
+  cases h1 : layoutSections dst mems with
+  | error e => simp [h1] at h
+  | ok d =>
+    simp only [h1] at h
+    by_cases hn : (d.images.flatMap (·.sections)).Nodup
+    · simp only [checkPlacedOnce, hn, if_true, Except.ok.injEq] at h
+      subst h
+      exact ⟨rfl, hn⟩
+    · simp [checkPlacedOnce, hn] at h
+
 /-! ### inversion of `link` -/
 
 theorem initEntry_ok {e : Option String} {d0 : Obj} (h : initEntry e = .ok d0) :
@@ -578,6 +659,7 @@ structure LinkInv (inp : LinkInput) (out : Obj) (tr : List ObjTrace) (d1 d2 : Ob
   d1_idinv : IdInv d1.symbols
   merge : mergeObjects d1 inp.objs = .ok (d2, tr)
   layout : layoutSections d2 (memories inp) = .ok out
+  placed_once : (placedNames (memories inp)).Nodup
   undef : inp.partialLink = false → hasUndefined out.symbols = false
   nonempty : inp.objs ≠ []
   no_partial_layout : ¬ (inp.partialLink = true ∧ inp.layout.isSome = true)
@@ -613,9 +695,11 @@ theorem linkT_inv {inp : LinkInput} {out : Obj} {tr : List ObjTrace} (h : linkT 
               simp only [Except.ok.injEq, Prod.mk.injEq] at h
               obtain ⟨e1, e2⟩ := h
               subst e1; subst e2
-              refine ⟨d1, d2, ⟨⟨d0, h0, h1⟩, s1.trans s0, i1.trans i0, id1, h2, ?_, ?_, hne', ?_⟩⟩
-              · simp [memories, hp]
-                cases inp.layout <;> simp [layoutSections]
+              have hm : memories inp = [] := by
+                unfold memories; cases inp.layout <;> simp [hp]
+              refine ⟨d1, d2, ⟨⟨d0, h0, h1⟩, s1.trans s0, i1.trans i0, id1, h2, ?_, ?_, ?_, hne', ?_⟩⟩
+              · rw [hm]; rfl
+              · rw [hm]; simp [placedNames]
               · intro hf; rw [hp] at hf; cases hf
               · intro hc; exact hl hc.2
           · have hp' : inp.partialLink = false := by simpa using hp
@@ -630,8 +714,10 @@ theorem linkT_inv {inp : LinkInput} {out : Obj} {tr : List ObjTrace} (h : linkT 
                 simp only [hu, Except.ok.injEq, Prod.mk.injEq] at h
                 obtain ⟨e1, e2⟩ := h
                 subst e1; subst e2
-                refine ⟨d1, d2, ⟨⟨d0, h0, h1⟩, s1.trans s0, i1.trans i0, id1, h2, ?_, ?_, hne', ?_⟩⟩
-                · simp [memories, hl, layoutSections]
+                have hm : memories inp = [] := by unfold memories; simp [hl]
+                refine ⟨d1, d2, ⟨⟨d0, h0, h1⟩, s1.trans s0, i1.trans i0, id1, h2, ?_, ?_, ?_, hne', ?_⟩⟩
+                · rw [hm]; rfl
+                · rw [hm]; simp [placedNames]
                 · intro _
                   unfold checkUndefined at hu
                   split at hu
@@ -640,18 +726,23 @@ theorem linkT_inv {inp : LinkInput} {out : Obj} {tr : List ObjTrace} (h : linkT 
                 · intro hc; rw [hp'] at hc; cases hc.1
             | some l =>
               simp only [hl] at h
-              cases h3 : layoutSections d2 l.memories with
-              | error e => simp [h3] at h
+              cases h3c : layoutChecked d2 l.memories with
+              | error e => simp [h3c] at h
               | ok d3 =>
-                simp only [h3] at h
+                simp only [h3c] at h
+                have ⟨h3, hnd3⟩ := layoutChecked_inv h3c
                 cases hu : checkUndefined d3 with
                 | error e => simp [hu] at h
                 | ok u =>
                   simp only [hu, Except.ok.injEq, Prod.mk.injEq] at h
                   obtain ⟨e1, e2⟩ := h
                   subst e1; subst e2
-                  refine ⟨d1, d2, ⟨⟨d0, h0, h1⟩, s1.trans s0, i1.trans i0, id1, h2, ?_, ?_, hne', ?_⟩⟩
-                  · simp [memories, hl, hp', h3]
+                  have hm : memories inp = l.memories := by unfold memories; simp [hl, hp']
+                  refine ⟨d1, d2, ⟨⟨d0, h0, h1⟩, s1.trans s0, i1.trans i0, id1, h2, ?_, ?_, ?_, hne', ?_⟩⟩
+                  · rw [hm]; exact h3
+                  · rw [hm]
+                    rw [layoutSections_imgnames h3, mergeObjects_images h2, i1.trans i0] at hnd3
+                    simpa using hnd3
                   · intro _
                     unfold checkUndefined at hu
                     split at hu
@@ -783,13 +874,6 @@ theorem Keeps.dataOf {secs secs' : List Section} (k : Keeps secs secs') {n : Str
     exact ⟨by rw [dataOf_of_get hs', dataOf_of_get hg, hd], by rw [alignOf_of_get hs', alignOf_of_get hg, ha],
       by rw [hs']; rfl⟩
 
-theorem mergeObjects_images : ∀ {objs : List Obj} {dst dst' : Obj} {tr : List ObjTrace},
-    mergeObjects dst objs = .ok (dst', tr) → dst'.images = dst.images
-  | [], dst, dst', tr, h => by rw [(mergeObjects_nil_inv h).1]
-  | o :: rest, dst, dst', tr, h => by
-    obtain ⟨dst1, t, ts, h1, h2, _⟩ := mergeObjects_cons_inv h
-    rw [mergeObjects_images h2, (injectObject_inv h1).2.2.2.2]
-
 theorem All2.mem_right {α β : Type} {R : α → β → Prop} {as : List α} {bs : List β} (h : All2 R as bs) :
     ∀ b ∈ bs, ∃ a ∈ as, R a b := by
   induction h with
@@ -803,10 +887,10 @@ theorem All2.mem_right {α β : Type} {R : α → β → Prop} {as : List α} {b
 
 /-- the images of a successful link are exactly one `MemOK` image per memory of the layout -/
 theorem link_images {inp : LinkInput} {out : Obj} {tr : List ObjTrace} {d1 d2 : Obj}
-    (li : LinkInv inp out tr d1 d2) (hnd : (placedNames (memories inp)).Nodup) :
+    (li : LinkInv inp out tr d1 d2) :
     All2 (MemOK out.sections) (memories inp) out.images := by
   have ⟨_, i2, _⟩ := mergeObjects_syms li.merge li.d1_idinv
-  obtain ⟨imgs, himgs, hall, _⟩ := layoutSections_ok li.layout hnd i2
+  obtain ⟨imgs, himgs, hall, _⟩ := layoutSections_ok li.layout li.placed_once i2
   rw [himgs, mergeObjects_images li.merge, li.d1_imgs, List.nil_append]
   exact hall
 
